@@ -152,7 +152,34 @@ class FactsEngine:
                     out.add(form)
             return frozenset(out)
 
+        def gen_assign(state, e):
+            """x = true / x = false (bool locals and members): the assigned truth value is known afterwards"""
+            x = e.get("expr")
+            if not isinstance(x, dict):
+                return state
+            add = []
+            for n in walk(x, into_sc=False):
+                if n.get("k") == "bin" and n["op"] == "=":
+                    r = ir.unwrap(n["r"])
+                    if isinstance(r, dict) and r.get("k") == "lit" and r.get("t") == "bool":
+                        tgt = ir.unwrap(n["l"])
+                        if isinstance(tgt, dict) and tgt.get("k") in ("ref", "member"):
+                            a = ("a", canon(subst(tgt, env) if env else tgt))
+                            add.append(a if r["v"] else Not(a))
+                elif n.get("k") == "decl":
+                    for v in n.get("vars", []):
+                        r = ir.unwrap(v.get("init"))
+                        if v.get("type") in ("bool", "_Bool") and isinstance(r, dict) and r.get("k") == "lit" and r.get("t") == "bool":
+                            a = ("a", ((env.get("lprefix") or "") if env else "") + v["name"])
+                            add.append(a if r["v"] else Not(a))
+            if add:
+                return frozenset(set(state) | set(add))
+            return state
+
         def telem(state, bid, i, e):
+            return gen_assign(telem0(state, bid, i, e), e)
+
+        def telem0(state, bid, i, e):
             hard, soft = self._killed_names(fn, e, env)
             callkeys = set()
             x = e.get("expr")
@@ -189,10 +216,21 @@ class FactsEngine:
                 r, _ = logic.entails(b, g, lg.axioms)
                 if r is True:
                     out.add(g)
+            only_b = []
             for g in b - a:
                 r, _ = logic.entails(a, g, lg.axioms)
                 if r is True:
                     out.add(g)
+                else:
+                    only_b.append(g)
+            only_a = [g for g in a - b if g not in out]
+            # keep what both sides know disjunctively (bounded): (g || h) holds on either incoming edge
+            if 0 < len(only_a) * len(only_b) <= 12:
+                for g in only_a:
+                    for h in only_b:
+                        d = Or(g, h)
+                        if d != T and logic.entails([], d)[0] is not True:
+                            out.add(d)
             return frozenset(out)
 
         IN, before = cfg.forward(fn, frozenset(init), telem, tedge, join)
